@@ -143,7 +143,7 @@ pub struct Eng {
     pub dead: bool,
 }
 
-fn conv(r: QueryResult) -> Out {
+pub fn conv(r: QueryResult) -> Out {
     match r {
         QueryResult::Rows(rows) => Out::Rows(rows.iterrows().map(|r| r.as_slice().iter().map(val).collect()).collect()),
         QueryResult::RowsAffected(n) => Out::Count(n),
@@ -151,7 +151,7 @@ fn conv(r: QueryResult) -> Out {
     }
 }
 
-fn err(e: impl std::fmt::Display) -> Out {
+pub fn err(e: impl std::fmt::Display) -> Out {
     let text = e.to_string();
     Out::Err { class: classify(&text), text }
 }
